@@ -104,6 +104,11 @@ def check_batch(ctx, rep, direction, msgs, with_mutants=True):
         if ie != spec and devinfo_fits(m):
             rep.violation('encoded PDU differs from the specification', case, finding=classify(direction, m, 'enc'),
                           impl=ie, spec=spec)
+        elif m['t'] == 'readDeviceInfo' and direction == 'resp' and isinstance(ie, list) and len(ie) > 253:
+            # objects that do not fit: which ones are held back is C20's business, but no PDU may exceed the 253 bytes of
+            # the specification
+            rep.violation('a Read Device Identification response PDU is longer than 253 bytes', case,
+                          finding=classify(direction, m, 'enc'), length=len(ie))
         streams.append(spec)
     # decode the SPEC encoding with the real decoder and with the model
     a2 = ctx.driver.query([{'op': 'codec', 'dir': dec_dir, 'bytes': s} for s in streams])
